@@ -236,8 +236,41 @@ func genFromSVD(rng *rand.Rand, n int, kappa float64) *svdCase {
 	du, dv := 1-2*rng.Intn(2), 1-2*rng.Intn(2)
 	u := randOrth(rng, n, du)
 	v := randOrth(rng, n, dv)
+	kind := "usv"
+	if rng.Intn(4) == 0 {
+		// orthogonal factors that are products of quarter turns computed with cos/sin: the matrix is
+		// axis-aligned up to entries of rounding-noise size (cos(pi/2) = 6e-17), a common input
+		// (rotations by right angles) that is neither generic nor exactly diagonal
+		kind = "usv-quarter-turns"
+		u, v = quarterTurnOrth(rng, n), quarterTurnOrth(rng, n)
+		du, dv = 1, 1
+	}
 	a := matMul(n, matMul(n, u, matDiag(sigma)), matT(n, v))
-	return &svdCase{a: a, sigma: sigma, kappa: sigma[0] / sigma[n-1], detU: du, detV: dv, kind: "usv"}
+	return &svdCase{a: a, sigma: sigma, kappa: sigma[0] / sigma[n-1], detU: du, detV: dv, kind: kind}
+}
+
+// quarterTurnOrth multiplies 0-4 plane rotations by multiples of pi/2, entries from math.Cos/Sin.
+func quarterTurnOrth(rng *rand.Rand, n int) []float64 {
+	m := make([]float64, n*n)
+	for i := 0; i < n; i++ {
+		m[i*n+i] = 1
+	}
+	for k := rng.Intn(5); k > 0; k-- {
+		i := rng.Intn(n)
+		j := rng.Intn(n - 1)
+		if j >= i {
+			j++
+		}
+		th := float64(1+rng.Intn(3)) * math.Pi / 2
+		cs, sn := math.Cos(th), math.Sin(th)
+		g := make([]float64, n*n)
+		for d := 0; d < n; d++ {
+			g[d*n+d] = 1
+		}
+		g[i*n+i], g[j*n+j], g[i*n+j], g[j*n+i] = cs, cs, -sn, sn
+		m = matMul(n, g, m)
+	}
+	return m
 }
 
 // genSpecial returns exactly representable matrices (integers, permutations,
